@@ -164,6 +164,18 @@ def run(ctx):
             Pl = rng.integers(-5, 6, (n, 3))
             Pl[(Pl == 0).all(axis=1)] = [0, 2, -1]
             nrm = np.reshape(miller.plane_crystal_to_cartesian(Pl.reshape(shape + (3,)), box), (n, 3))
+            # the same Box OBJECT given other vectors in place: the normal is that of the cell it has NOW
+            if rng.random() < .5:
+                b_re = am.Box(vects=np.array([[5.0, 0, 0], [1.0, 4.0, 0], [0.5, -1.0, 7.0]]))
+                miller.plane_crystal_to_cartesian(Pl.reshape(shape + (3,)), b_re)
+                b_re.plane_crystal_to_cartesian(Pl[0])
+                if rng.random() < .5:
+                    b_re.set(vects=box.vects, origin=box.origin)
+                else:
+                    b_re.vects = box.vects
+                nre = np.reshape(miller.plane_crystal_to_cartesian(Pl.reshape(shape + (3,)), b_re), (n, 3))
+                if not np.allclose(nre, nrm, rtol=0, atol=1e-12) or not np.allclose(b_re.plane_crystal_to_cartesian(Pl[0]), nrm[0], rtol=0, atol=1e-12):
+                    ctx.violation('plane normal of a Box re-set in place is not that of its present cell', 'hkl=%s got %s expected %s' % (Pl[0].tolist(), nre[0].tolist(), nrm[0].tolist()))
             # narrow and unsigned integer index arrays (values up to 7 fit every integer type used here)
             for dt in (np.int8, np.int16, np.uint8):
                 Pd = np.abs(Pl) if dt is np.uint8 else Pl
